@@ -24,6 +24,7 @@ func TestVerifC05FitExhaustive(t *testing.T) {
 	}
 	for idx := 0; idx < 256; idx++ {
 		r := h.Begin(idx)
+		c05DeclReset(h) // round 9: registry of the pod objects declared in this case
 		if r == nil {
 			continue
 		}
